@@ -93,11 +93,15 @@ Definition spec_auth_difference_list (authmap : list event) (sets : list (list e
 Definition reach_reflb (authmap : list event) (a b : event) : bool :=
   bytes_eqb (e_id a) (e_id b) || has_event (e_id b) (reach_list authmap [a]).
 
+(* (one reach list per event, computed once) *)
 Definition spec_conflicted_subgraph_list (authmap conflicted : list event) (sets : list (list event))
   : list event :=
   let origins := filter (fun o => has_event (e_id o) conflicted) (concat sets) in
-  filter (fun x => existsb (fun o => reach_reflb authmap o x) origins
-                   && existsb (fun c => reach_reflb authmap x c) conflicted) authmap.
+  let from_origins := fold_left (fun acc o => fold_left (fun acc a => add_new a acc) (reach_list authmap [o]) acc)
+                                origins [] in
+  filter (fun x => (has_event (e_id x) origins || has_event (e_id x) from_origins)
+                   && (has_event (e_id x) conflicted
+                       || existsb (fun c => has_event (e_id c) conflicted) (reach_list authmap [x]))) authmap.
 
 (* ---------- the power set (6.2 r5) and the rest ---------- *)
 (* control events: power levels, join rules, and bans / kicks of somebody else *)
